@@ -41,7 +41,7 @@ CHECKS = {
    text="Every successful render explored is re-parsed by PostgreSQL's grammar inside SELECT 1 FROM t WHERE (<text>): exactly one statement, only the WHERE clause populated, no comment tokens, only whitelisted constructs, every column a field of the query and every string constant a value of the query.",
    note="libpg_query v15 grammar/scanner defaults (standard_conforming_strings on); provenance ground truth is the parsed tree (its faithfulness is C06/C08).", ref="5/C02"),
   "C03": dict(tech="runtime monitoring: translation check of each rendered query against a reference evaluator on probe rows (leaf layer), propositional truth-table equivalence of the SQL PostgreSQL reads vs the query structure over leaf SQL (composition layer), end-to-end row evaluation",
-   text="Leaf classes enumerated exhaustively with seeded values and compared with the query's meaning on probe rows; compounds checked by full truth tables over atoms and, when all leaves are clean, on rows. Known leaf defects are listed by signature in KNOWN_FINDINGS.txt.", level="translation_validation",
+   text="Leaf classes enumerated exhaustively with seeded values and compared with the query's meaning on probe rows; compounds checked by full truth tables over atoms and, when all leaves are clean, on rows. Known leaf defects are listed by signature in KNOWN_FINDINGS.txt.",
    note="Two-valued typed model on non-NULL rows, exact rationals, bytewise string order, SIMILAR TO via anchored regexp; SQL read by libpg_query.", ref="5/C03"),
   "C04": dict(tech="runtime monitoring: differential oracle inline vs parameterized (placeholder scanner, ground-truth value list, IR equality after substitution or probe-row agreement) plus same-kind value substitution metamorphic test",
    text="For every renderable tree explored: parameterized succeeds when inline does, placeholders = parameters = the generator's values in order with kinds, substituted parameterized SQL is the same predicate as the inline SQL, and the SQL text is invariant under same-kind value substitution.",
@@ -49,6 +49,9 @@ CHECKS = {
   "C08": dict(tech="runtime monitoring: identity oracle on generator-chosen strings through the tree, PostgreSQL's string-literal decoder (libpg_query) and the parameter list, in 8 syntactic positions and two spellings",
    text="Every string explored, quoted and (when eligible) fully escaped, must arrive byte for byte in the tree, in the constants PostgreSQL decodes from the inline SQL and in the parameters.",
    note="Values with NUL or invalid UTF-8 cannot be SQL text; their rejection by the renderer is counted, not a violation.", ref="5/C08"),
+  "C14": dict(tech="runtime monitoring: Go race detector (-race build, yield-only hook sinks) over concurrent operation scripts on shared driver and shared expressions; result comparison with a sequential baseline; twin-expression immutability check; overlap accounting",
+   text="2/8/64 goroutines x GOMAXPROCS 2/4/16 run seeded scripts of 12 operations over shared expressions and the package-level driver under the race detector; any race report, any result differing from the sequential baseline, any nondeterministic repeat and any modified expression is a violation. Interleavings are those the scheduler produced (overlapping operation pairs are counted).",
+   note="The race detector only sees executed interleavings; overlap accounting runs in separate configurations because its atomics add synchronisation.", ref="5/C14"),
 }
 NOT_YET = {
 }
